@@ -593,6 +593,8 @@ MUTANTS = [
     Mutant("unsolicited-disable-unanswered", T, "        state.us.state = \"no\"\n        self.disableLocal(option)\n        self._wont(option)\n",
            "        state.us.state = \"no\"\n        self.disableLocal(option)\n"),
     Mutant("transport-skips-drain", T, "        Telnet.connectionLost(self, reason)\n        if self.protocol is not None:", "        if self.protocol is not None:"),
+    Mutant("will-sender-picked-by-wrong-name", T, "            s.us.onResult = d = defer.Deferred()\n            self._will(option)\n", "            s.us.onResult = d = defer.Deferred()\n            getattr(self, \"_do\")(option)\n",
+           expect_rule="request/sends-own-command"),
 ]
 SILENT = [
     Silent("requester-named-perspective-and-split-assignment", T, "    def dont(self, option):\n        s = self.getOptionState(option)\n        if s.us.negotiating or s.him.negotiating:\n            return defer.fail(AlreadyNegotiating(option))\n        elif s.him.state == \"no\":\n            return defer.fail(AlreadyDisabled(option))\n        else:\n            s.him.negotiating = True\n            s.him.onResult = d = defer.Deferred()\n            self._dont(option)\n            return d\n",
@@ -614,4 +616,5 @@ SILENT = [
            "        s = self.getOptionState(option)\n        if s.him.negotiating:\n            return defer.fail(AlreadyNegotiating(option))\n        if s.us.negotiating:\n            return defer.fail(AlreadyNegotiating(option))\n        if s.us.state != \"no\":\n            return defer.fail(AlreadyEnabled(option))\n        d = defer.Deferred()\n        s.us.onResult = d\n        s.us.negotiating = True\n        self._will(option)\n        return d\n"),
     Silent("reply-row-inverted-branches", T, "        if self.enableRemote(option):\n            state.him.state = \"yes\"\n            self._do(option)\n        else:\n            self._dont(option)\n",
            "        if not self.enableRemote(option):\n            self._dont(option)\n            return\n        state.him.state = \"yes\"\n        self._do(option)\n"),
+    Silent("will-sender-picked-by-name", T, "            s.us.onResult = d = defer.Deferred()\n            self._will(option)\n", "            s.us.onResult = d = defer.Deferred()\n            getattr(self, \"_will\")(option)\n"),
 ]
